@@ -7,8 +7,9 @@ V=${VERIF_DIR:?}; R=${VERIF_REPO:?}; OUT=$1; LIST=$2
 : > $OUT
 while read -r patch props; do
   [ -z "$patch" ] && continue
-  if ! git -C $R apply --check $V/$patch 2>/dev/null; then echo -e "$patch\tstale\t-" >> $OUT; continue; fi
-  git -C $R apply $V/$patch
+  if git -C $R apply --check $V/$patch 2>/dev/null; then git -C $R apply $V/$patch
+  elif (cd $R && patch -p1 -F3 -s --dry-run < $V/$patch >/dev/null 2>&1); then (cd $R && patch -p1 -F3 -s --no-backup-if-mismatch < $V/$patch >/dev/null 2>&1)   # context moved by later fixes
+  else echo -e "$patch\tstale\t-" >> $OUT; continue; fi
   if ! (cd $R && go build ./... >/dev/null 2>&1); then git -C $R checkout -- .; git -C $R clean -fdq; echo -e "$patch\tstale\tdoes-not-build" >> $OUT; continue; fi
   res=MISSED; det=""
   for p in $props; do
